@@ -292,19 +292,33 @@ type solverSpec struct {
 	name string
 	argv func(file string, timeoutS int, seed int) []string
 	pre  string // text to put before the query
+	xf   func(query string) string // optional rewrite of the query text
 }
 
 func solverSpecs() []solverSpec {
 	return []solverSpec{
 		{"z3-5.1.0", func(f string, t, seed int) []string {
 			return []string{"z3-new", fmt.Sprintf("-T:%d", t), fmt.Sprintf("smt.random_seed=%d", seed), f}
-		}, ""},
+		}, "", nil},
 		{"z3-4.8.12", func(f string, t, seed int) []string {
 			return []string{"z3", fmt.Sprintf("-T:%d", t), fmt.Sprintf("smt.random_seed=%d", seed), f}
-		}, ""},
+		}, "", nil},
 		{"cvc5-1.0.3", func(f string, t, seed int) []string {
 			return []string{"cvc5", "--enum-inst", fmt.Sprintf("--tlimit=%d", t*1000), fmt.Sprintf("--seed=%d", seed), f}
-		}, "(set-option :produce-models true)\n(set-logic ALL)\n"},
+		}, "(set-option :produce-models true)\n(set-logic ALL)\n", nil},
+		// int-blasting (Zohar et al., VMCAI 2022): exact translation of the
+		// bit-vector goal to integers; decides the linear length/offset
+		// arithmetic of decoders and encoders that bit-blasting does not.
+		{"cvc5-1.0.3-intblast", func(f string, t, seed int) []string {
+			return []string{"cvc5", "--solve-bv-as-int=sum", fmt.Sprintf("--tlimit=%d", t*1000), fmt.Sprintf("--seed=%d", seed), f}
+		}, "(set-option :produce-models true)\n(set-logic ALL)\n", nil},
+		// z3 with an explicit bit-blasting pipeline (quantifier-free goals only;
+		// anything else makes the tactic fail, which counts as "no answer")
+		{"z3-5.1.0-bitblast", func(f string, t, seed int) []string {
+			return []string{"z3-new", fmt.Sprintf("-T:%d", t), f}
+		}, "", func(q string) string {
+			return strings.Replace(q, "(check-sat)", "(check-sat-using (then simplify solve-eqs elim-uncnstr reduce-bv-size simplify bit-blast sat))", 1)
+		}},
 	}
 }
 
@@ -315,8 +329,48 @@ var procSlots = make(chan struct{}, 16)
 // solve races the installed solvers on one query. wantModel adds (get-model)
 // handling: the winning solver's model text is returned when sat.
 func solve(workdir, name, query string, timeoutS, seed int, only string) SolveResult {
-	specs := solverSpecs()
+	return solveCtx(context.Background(), workdir, name, query, timeoutS, seed, only)
+}
+
+// solveSliced races the query against its memory-free slice (slice.go): the
+// slice may only prove (unsat); every other answer comes from the full query.
+func solveSliced(workdir, name, query string, timeoutS, seed int) SolveResult {
+	sq, ok := sliceQuery(query)
+	if !ok {
+		return solve(workdir, name, query, timeoutS, seed, "")
+	}
 	ctx, cancel := context.WithCancel(context.Background())
+	defer cancel()
+	full := make(chan SolveResult, 1)
+	sl := make(chan SolveResult, 1)
+	go func() { full <- solveCtx(ctx, workdir, name, query, timeoutS, seed, "") }()
+	go func() { sl <- solveCtx(ctx, workdir, name+".sliced", sq, timeoutS, seed, "") }()
+	for {
+		select {
+		case r := <-sl:
+			if r.Status == "unsat" {
+				r.Solver += "+sliced"
+				return r
+			}
+			return <-full
+		case r := <-full:
+			if r.Status == "unsat" || r.Status == "sat" {
+				return r
+			}
+			// undecided: the slice may still prove it
+			r2 := <-sl
+			if r2.Status == "unsat" {
+				r2.Solver += "+sliced"
+				return r2
+			}
+			return r
+		}
+	}
+}
+
+func solveCtx(parent context.Context, workdir, name, query string, timeoutS, seed int, only string) SolveResult {
+	specs := solverSpecs()
+	ctx, cancel := context.WithCancel(parent)
 	defer cancel()
 	type res struct {
 		r SolveResult
@@ -325,7 +379,7 @@ func solve(workdir, name, query string, timeoutS, seed int, only string) SolveRe
 	var wg sync.WaitGroup
 	n := 0
 	for _, sp := range specs {
-		if only != "" && !strings.HasPrefix(sp.name, only) {
+		if only != "" && (!strings.HasPrefix(sp.name, only) || sp.xf != nil || strings.HasSuffix(sp.name, "blast")) {
 			continue
 		}
 		n++
@@ -335,6 +389,9 @@ func solve(workdir, name, query string, timeoutS, seed int, only string) SolveRe
 			defer wg.Done()
 			file := filepath.Join(workdir, sanitize(name)+"."+sp.name+".smt2")
 			body := sp.pre + query
+			if sp.xf != nil {
+				body = sp.pre + sp.xf(query)
+			}
 			if err := os.WriteFile(file, []byte(body), 0o644); err != nil {
 				ch <- SolveResult{Status: "error", Solver: sp.name, Output: err.Error()}
 				return
